@@ -444,6 +444,12 @@ def e2_op_strategies(nparts, ngroups, profile):
         'cellev': st.tuples(st.just('cellev'), st.integers(0, 3),
                             st.booleans()).map(list),
         'cellrm': st.tuples(st.just('cellrm'), st.integers(0, 3)).map(list),
+        # macro: a node goes down, the master notices, and it comes back
+        # rebuilt with the same capacity but other traits
+        'retrait': st.tuples(idx, trait_mask(), st.booleans())
+        .map(lambda t: ['macro', [['down', t[0]], ['cycle'],
+                                  ['uptrait', t[0], t[1]]] +
+                        ([['cycle']] if t[2] else [])]),
         # macro: a burst of admin events (more than the master's batch size
         # of 20) reaches the master in one delivery
         'evburst': st.lists(st.tuples(idx, vec(1, 16), st.integers(0, 7)),
@@ -599,7 +605,7 @@ E2_WEIGHTS = {
     'reboot': 1, 'resize': 1, 'shave': 1, 'repart': 1, 'reparent': 1,
     'state': 1, 'allocs': 1, 'idg': 1, 'rmidg': 1, 'bl': 1, 'blackout': 1,
     'cellev': 1, 'cellrm': 0, 'rmbucket': 0, 'rmbucketrestart': 0,
-    'rmbucketcrash': 0, 'badparent': 0, 'badparentcrash': 0, 'rmrestart': 0, 'evburst': 0, 'running': 1, 'adv': 2, 'adv_ret': 1, 'tickreboots': 1,
+    'rmbucketcrash': 0, 'badparent': 0, 'badparentcrash': 0, 'rmrestart': 0, 'evburst': 0, 'retrait': 0, 'running': 1, 'adv': 2, 'adv_ret': 1, 'tickreboots': 1,
     'checkreboot': 1, 'integrity': 1, 'enq': 1, 'proc': 1, 'ev': 3,
     'sched': 3, 'cycle': 6, 'restart': 1,
 }
